@@ -19,7 +19,9 @@ SPEC_FILES = ["Spec/Core.lean"]
 ASSUMPTIONS = ["PARTIAL: the model's API functions are pure, so hidden state can only be exhibited on the real code: histories with "
                "in-place mutation of earlier results, identity walks, argument snapshots and 16 threads are the tie; interpreter and "
                "native-library (OpenSSL, cryptography) thread safety is runtime behaviour outside any model",
-               "the list of module-level mutable objects is regenerated on every run and must equal the reviewed list"]
+               "the list of module-level mutable objects is regenerated on every run and must equal the reviewed list",
+               "the clock read by the SafetyNet timestamp check is held fixed while histories run (the clock is an input of the API, "
+               "not state; C17 is the check that moves it)"]
 
 
 def module_objects():
@@ -186,7 +188,35 @@ def vandalise(rng, result):
             pass
 
 
+class _HeldClock:
+    """stands in for the `time` module inside verify_safetynet_timestamp and the oracle while histories run: the clock
+    is an *input* of the API, not state; holding it makes 'the same call' mean the same call (a SafetyNet response is
+    only valid for +-10 s, histories of the thorough tier run for a minute)"""
+
+    def __init__(self, t):
+        self.t = t
+
+    def time(self):
+        return self.t
+
+
 def run(ctx, res):
+    import time as _time
+    import sys
+    import webauthn.helpers                                                       # noqa: F401 (loads the submodule)
+    vst = sys.modules["webauthn.helpers.verify_safetynet_timestamp"]            # the attribute of that name is the function
+    from .. import oracle as _oracle
+    held = _HeldClock(_time.time())
+    saved = (vst.time, _oracle.time)
+    vst.time = held
+    _oracle.time = held
+    try:
+        _run(ctx, res)
+    finally:
+        vst.time, _oracle.time = saved
+
+
+def _run(ctx, res):
     rng = ctx.rng
     top, nested = module_objects()
     module_ids = dict(top)
